@@ -145,6 +145,30 @@ CHECKS["C20"] = (
     "through the matrix API, the scalar API and MolGraph.from_geometry; invariance under rigid motion and atom permutation.",
     "Trusted: the covalent radii table (read as data).", "DESIGN.md 5/C20")
 
+CHECKS["C12"] = (
+    ENUM + " (all permutation labels x all atom renumberings x RDKit-written re-spellings x converter options)",
+    "Every TH/SP/TB/OH permutation label of a complex with pairwise distinct ligands under all n! RenumberAtoms orders, every "
+    "rooted SMILES re-spelling (which changes neighbour order and label) and the converter option combinations: equal graphs and "
+    "hashes inside a stereoisomer, 2/3/20/30 pairwise unequal classes across labels; organic molecules: all stereoisomers x "
+    "renumbering family x rooted re-spellings; map-number import equals the renamed index import.",
+    "Trusted: RDKit 2024.09.3 (RenumberAtoms, SMILES writer/reader for non-tetrahedral stereo, EnumerateStereoisomers).",
+    "DESIGN.md 5/C12")
+CHECKS["C13"] = (
+    ENUM + " (every descriptor ordering x parity of every coordination class, two identifier pools)",
+    "All 48/48/24/240/1440 orderings-and-parities of tetrahedral (with and without lone pair), square planar, trigonal "
+    "bipyramidal and octahedral stars in two identifier pools with permuted insertion order, two-unit graphs, all E/Z double "
+    "bonds over 5 substituent elements with regenerated bond orders, and imported organics: export then import by atom-map "
+    "number reproduces atoms, elements, bonds and spatially identical descriptors; export leaves the graph unchanged.",
+    "Trusted: RDKit as the carrier; identifiers must be positive (atom-map numbers).", "DESIGN.md 5/C13")
+CHECKS["C14"] = (
+    ENUM + " (all stereoisomers x embedding seeds; all ligand placements on SP/TB/OH templates x bond orders x noise)",
+    "Every stereoisomer of the listed organics embedded with fixed ETKDG seeds: annotation graph equals coordinate graph after "
+    "removing planar-bond descriptors of non-double bonds; for SP/TB/OH every placement of distinct ligands on the template "
+    "vertices (24/120/720) x bond-creation orders x centre position x noise: the label RDKit assigns from 3D, imported, gives a "
+    "descriptor spatially identical to the one perceived from the same coordinates.",
+    "Trusted: RDKit embedding and AssignStereochemistryFrom3D; guarded/flattened/short-contact conformers are skipped and "
+    "counted.", "DESIGN.md 5/C14")
+
 NOT_YET = {
 }
 
